@@ -641,6 +641,7 @@ package analysis
 //@   loop 1: invariant forall id in dom(opIDs) :: old((idOfDoc(primary, id) || (exists i in 0..len(mixins) :: idOfDoc(mixins[i], id)))) || (exists j in 0..idx :: exists a string :: old(idOfDoc(mixins[j], a)) && id == mixName(a, j))
 //@   loop 1: invariant forall i in idx..len(mixins) :: forall o *spec.Operation :: opOfDoc(mixins[i], o) ==> o.ID == old(o.ID)
 //@   loop 1: invariant forall i in idx..len(mixins) :: forall o *spec.Operation :: opOfDoc(mixins[i], o) ==> !opOfDoc(primary, o)
+//@   loop 1: invariant forall i in 0..len(mixins) :: mixins[i].Paths == old(mixins[i].Paths) && swPaths(mixins[i]) == old(swPaths(mixins[i]))
 //@   loop 1: invariant forall i in 0..len(mixins) :: forall o *spec.Operation :: opOfDoc(mixins[i], o) == old(opOfDoc(mixins[i], o))
 //@   loop 1: invariant forall i in idx..len(mixins) :: forall o *spec.Operation :: opOfDoc(mixins[i], o) && o.ID != "" ==> old(idOfDoc(mixins[i], o.ID))
 
